@@ -20,26 +20,10 @@ route, which the compiler leaves to the tree) -/
 def dOrder1 (sat : Nat → Bytes → Bool) (R : List Route) (m : Bytes) (p : RPath) : Bool :=
   R.any fun r => r.method = m && compiledDyn r && (routeMatch sat r p).isSome && !admissible sat R m p r
 
-def dupName : List (Bytes × Nat) → Bool
-  | [] => false
-  | (n, _) :: rest => rest.any (·.1 = n) || dupName rest
-
 /- K11e (class `undeclared`): some route carries a constraint on a name its pattern does not declare
-(`normal R` fails): the tree then never matches that route, the compiled matcher ignores the constraint. -/
-
-/-- K11d: a route whose pattern matches carries two constraints on one parameter (the compiled
-matcher keeps the first constraint per parameter, the tree checks all of them) -/
-def dMulti1 (R : List Route) (m : Bytes) (p : RPath) : Bool :=
-  R.any fun r => r.method = m && compiledDyn r && (matchPat p.trail r.pat p.segs).isSome && dupName r.cons
-
-def isWhite (c : Char) : Bool := c = ' ' || c = '\t' || c = '\n' || c = '\r' || c.toNat = 11 || c.toNat = 12
-
-/-- K11f: some pattern text ends in white space (`CompileRoute` trims it, the tree registers it as
-written: pattern text, last parameter name or last literal differ) -/
-def dSpace (R : List Route) : Bool :=
-  R.any fun r => match r.text.getLast? with
-    | some c => isWhite c
-    | none => false
+(`normal R` fails): the tree then never matches that route, the compiled matcher ignores the constraint.
+K11d (two constraints on one parameter) and K11f (white space trimmed by `CompileRoute` only) were
+repaired (6caf0d2, 59d7821) and are no longer classes. -/
 
 /-- every pattern is in the vocabulary (constraints unrestricted) -/
 def patternsOK (R : List Route) : Bool := R.all fun r => parsePattern r.text = some r.pat
@@ -48,9 +32,7 @@ def patternsOK (R : List Route) : Bool := R.all fun r => parsePattern r.text = s
 request's own method; the 404/405 tail is shared code. -/
 def classify11 (sat : Nat → Bytes → Bool) (R : List Route) (req : Req) (p : RPath) : String :=
   let m := req.method
-  if dSpace R then "space"
-  else if !normal R then "undeclared"
-  else if dMulti1 R m p then "multicons"
+  if !normal R then "undeclared"
   else if dOverwrite1 R m p then "overwrite"
   else if dNames1 R m p then "names"
   else if dShadow1 R m p then "shadow"
